@@ -343,7 +343,7 @@ def budget(prop, tier):
 def worker_main(prop_id, tier, seed, index, out_path):
     prop = load_prop(prop_id)
     known, _ = load_known(prop_id)
-    known_clauses = [e["clause"] for e in known]
+    known_clauses = [e["clause"] for e in known if "case" not in e]
     stats = Stats()
     result = stats.to_json()
     try:
@@ -378,7 +378,7 @@ def main(argv):
     seed = int(os.environ.get("VERIF_SEED", "1") or "1")
     prop = load_prop(prop_id)
     known, _fixed = load_known(prop_id)
-    known_clauses = [e["clause"] for e in known]
+    known_clauses = [e["clause"] for e in known if "case" not in e]
     replay_dir = os.path.join(ROOT, "replays", prop_id)
 
     if argv[2] == "--replay":
@@ -404,12 +404,29 @@ def main(argv):
         return 2
     t0 = time.time()
     stats = Stats()
-    for e in known:
-        print(f"KNOWN-FINDING: property={prop_id} {e['what']}")
     failure = None
     replay_path = None
     try:
-        failure, replay_path = run_fixed(prop, tier, stats, known_clauses, replay_dir)
+        for e in known:
+            if "case" not in e:
+                # clause-wide finding: suppressed through Ctx.known
+                print(f"KNOWN-FINDING: property={prop_id} {e['what']}")
+                continue
+            # finding identified by a specific witness input: replay it
+            wf = run_case(prop, e["case"], Ctx(prop_id, (), tier))
+            if wf is None:
+                print(
+                    f"NOTE: known finding {e.get('id', '?')} no longer reproduces "
+                    f"on this tree (property={prop_id})"
+                )
+            elif wf.clause == e["clause"]:
+                print(f"KNOWN-FINDING: property={prop_id} {e['what']}")
+                stats.known_hits[e["clause"]] = stats.known_hits.get(e["clause"], 0) + 1
+            else:
+                failure = wf
+                break
+        if failure is None:
+            failure, replay_path = run_fixed(prop, tier, stats, known_clauses, replay_dir)
         if failure is None:
             if tier == "quick" or N_WORKERS <= 1:
                 failure = generate(
